@@ -20,7 +20,7 @@ import (
 func TestMain(m *testing.M) { fx.Main(m, "C12") }
 
 type Op struct {
-	Kind string `json:"kind"` // login relogin reloginN register close disconnect regdrop user
+	Kind string `json:"kind"` // login relogin reloginN register close disconnect regdrop user race bulk
 	Slot int    `json:"slot"`
 	Name int    `json:"name"` // index into names
 	N    int    `json:"n,omitempty"`
@@ -50,12 +50,18 @@ func pxyMsg(s *fx.Server, ni int, slot int) *msg.NewProxy {
 func gen(t *rapid.T) Case {
 	n := rapid.IntRange(3, 18).Draw(t, "nops")
 	c := Case{TCPMux: rapid.Bool().Draw(t, "tcpmux")}
-	kinds := []string{"login", "login", "relogin", "relogin", "reloginN", "register", "register", "register", "register", "close", "close", "disconnect", "regdrop", "user", "user", "user"}
+	kinds := []string{"login", "login", "relogin", "relogin", "reloginN", "register", "register", "register", "register", "close", "close", "disconnect", "regdrop", "user", "user", "user", "race", "race", "bulk", "bulk"}
 	c.Ops = append(c.Ops, Op{Kind: "login", Slot: 0}, Op{Kind: "login", Slot: 1})
 	for i := 0; i < n; i++ {
 		op := Op{Kind: rapid.SampledFrom(kinds).Draw(t, "kind"), Slot: rapid.IntRange(0, 2).Draw(t, "slot"), Name: rapid.IntRange(0, 3).Draw(t, "name")}
 		if op.Kind == "reloginN" {
 			op.N = rapid.IntRange(2, 3).Draw(t, "n")
+		}
+		if op.Kind == "race" {
+			op.N = rapid.IntRange(1, 2).Draw(t, "other") // the rival is slot+N
+		}
+		if op.Kind == "bulk" {
+			op.N = rapid.SampledFrom([]int{10, 40, 120}).Draw(t, "bulk")
 		}
 		c.Ops = append(c.Ops, op)
 	}
@@ -91,6 +97,10 @@ func run(c Case) (err error) {
 	slots := map[int]*sess{}
 	gens := map[int]int{}
 	model := map[int]owner{} // name index -> owner
+	bulk := map[int]int{}    // slot -> number of extra stcp proxies ("bulk-<slot>-<k>") it holds
+	bulkMsg := func(slot, k int) *msg.NewProxy {
+		return &msg.NewProxy{ProxyName: fmt.Sprintf("bulk-%d-%d", slot, k), ProxyType: "stcp", Sk: "sk-bulk", AllowUsers: []string{"*"}}
+	}
 	defer func() {
 		for _, ss := range slots {
 			ss.sc.Close()
@@ -258,6 +268,11 @@ func run(c Case) (err error) {
 		for ni := range model {
 			want = append(want, names[ni])
 		}
+		for sl, n := range bulk {
+			for k := 0; k < n; k++ {
+				want = append(want, fmt.Sprintf("bulk-%d-%d", sl, k))
+			}
+		}
 		sort.Strings(want)
 		got := append([]string(nil), snap.Proxies...)
 		sort.Strings(got)
@@ -295,6 +310,8 @@ func run(c Case) (err error) {
 			}
 			old := ss
 			prev := ownedBy(op.Slot)
+			prevBulk := bulk[op.Slot]
+			delete(bulk, op.Slot)
 			// the old client process is gone in the scenario: it must not answer further
 			// work-connection requests under the shared run id
 			old.sc.StopAuto()
@@ -358,6 +375,16 @@ func run(c Case) (err error) {
 					}
 					model[ni] = owner{op.Slot, ns.gen}
 				}
+				for k := 0; k < prevBulk; k++ {
+					resp, e := ns.sc.NewProxy(bulkMsg(op.Slot, k), 5*time.Second)
+					if e != nil {
+						return fmt.Errorf("step %d: re-registration of bulk proxy %d after re-login: %v", i, k, e)
+					}
+					if resp.Error != "" {
+						return fmt.Errorf("step %d: re-registration of the client's own proxy %s right after the re-login was acknowledged is refused: %s", i, resp.ProxyName, resp.Error)
+					}
+					bulk[op.Slot] = k + 1
+				}
 				alive = []*sess{ns}
 			} else {
 				// several at once: let them settle, exactly one survives
@@ -386,6 +413,13 @@ func run(c Case) (err error) {
 						return fmt.Errorf("step %d: surviving re-login cannot re-register %s: %v %v", i, names[ni], e, resp)
 					}
 					model[ni] = owner{op.Slot, ns.gen}
+				}
+				for k := 0; k < prevBulk; k++ {
+					resp, e := ns.sc.NewProxy(bulkMsg(op.Slot, k), 5*time.Second)
+					if e != nil || resp.Error != "" {
+						return fmt.Errorf("step %d: surviving re-login cannot re-register bulk proxy %d: %v %v", i, k, e, resp)
+					}
+					bulk[op.Slot] = k + 1
 				}
 			}
 			slots[op.Slot] = alive[0]
@@ -448,6 +482,7 @@ func run(c Case) (err error) {
 			}
 			ss.sc.Close()
 			delete(slots, op.Slot)
+			delete(bulk, op.Slot)
 			for ni := range model {
 				if model[ni].slot == op.Slot {
 					delete(model, ni)
@@ -463,6 +498,7 @@ func run(c Case) (err error) {
 			_ = ss.sc.Send(pxyMsg(s, op.Name, op.Slot))
 			ss.sc.Close()
 			delete(slots, op.Slot)
+			delete(bulk, op.Slot)
 			for ni := range model {
 				if model[ni].slot == op.Slot {
 					delete(model, ni)
@@ -476,6 +512,55 @@ func run(c Case) (err error) {
 		case "user":
 			if e := userCheck(i, op.Name); e != nil {
 				return e
+			}
+		case "bulk":
+			// the session takes a larger number of names, so that its teardown takes a while
+			if ss == nil || bulk[op.Slot] > 0 {
+				continue
+			}
+			for k := 0; k < op.N; k++ {
+				resp, e := ss.sc.NewProxy(bulkMsg(op.Slot, k), 5*time.Second)
+				if e != nil || resp.Error != "" {
+					return fmt.Errorf("step %d: registration of free name bulk-%d-%d refused: %v %v", i, op.Slot, k, e, resp)
+				}
+				bulk[op.Slot] = k + 1
+			}
+		case "race":
+			// two different sessions ask for the same name at the same moment (their ports / domains differ)
+			rival := (op.Slot + op.N) % 3
+			rs := slots[rival]
+			if ss == nil || rs == nil {
+				continue
+			}
+			type rr struct {
+				resp *msg.NewProxyResp
+				e    error
+			}
+			var ra, rb rr
+			var wg sync.WaitGroup
+			wg.Add(2)
+			go func() { defer wg.Done(); ra.resp, ra.e = ss.sc.NewProxy(pxyMsg(s, op.Name, op.Slot), 5*time.Second) }()
+			go func() { defer wg.Done(); rb.resp, rb.e = rs.sc.NewProxy(pxyMsg(s, op.Name, rival), 5*time.Second) }()
+			wg.Wait()
+			if ra.e != nil || rb.e != nil {
+				return fmt.Errorf("step %d: no response to concurrent NewProxy %s: %v / %v", i, names[op.Name], ra.e, rb.e)
+			}
+			okA, okB := ra.resp.Error == "", rb.resp.Error == ""
+			_, live := model[op.Name]
+			switch {
+			case okA && okB:
+				return fmt.Errorf("step %d: name %s was granted to two sessions at once (slots %d and %d asked at the same moment)", i, names[op.Name], op.Slot, rival)
+			case live && (okA || okB):
+				return fmt.Errorf("step %d: second registration of live name %s was accepted", i, names[op.Name])
+			case !live && okA:
+				model[op.Name] = owner{op.Slot, ss.gen}
+			case !live && okB:
+				model[op.Name] = owner{rival, rs.gen}
+			case !live:
+				return fmt.Errorf("step %d: free name %s asked for by two sessions at once was granted to neither: %q / %q", i, names[op.Name], ra.resp.Error, rb.resp.Error)
+			}
+			if e := userCheck(i, op.Name); e != nil {
+				return fmt.Errorf("after concurrent registrations: %v", e)
 			}
 		}
 	}
@@ -504,7 +589,7 @@ func classify(c Case) fx.Class {
 	// abstract replay of the model to find collisions and re-logins with proxies
 	live := map[int]int{}
 	sessions := map[int]bool{}
-	collision, reloginHolding, multi := false, false, false
+	collision, reloginHolding, multi, raced := false, false, false, false
 	var sig []string
 	for _, op := range c.Ops {
 		sig = append(sig, fmt.Sprintf("%s%d.%d", op.Kind[:2], op.Slot, op.Name))
@@ -521,6 +606,14 @@ func classify(c Case) fx.Class {
 				}
 			} else {
 				live[op.Name] = op.Slot
+			}
+		case "race":
+			rival := (op.Slot + op.N) % 3
+			if sessions[op.Slot] && sessions[rival] {
+				collision, raced = true, true
+				if _, ok := live[op.Name]; !ok {
+					live[op.Name] = -1 // one of the two
+				}
 			}
 		case "close":
 			if o, ok := live[op.Name]; ok && o == op.Slot && sessions[op.Slot] {
@@ -557,6 +650,9 @@ func classify(c Case) fx.Class {
 	}
 	if multi {
 		labels = append(labels, "concurrent-relogin")
+	}
+	if raced {
+		labels = append(labels, "concurrent-same-name")
 	}
 	return fx.Class{NonTrivial: collision || reloginHolding, Fingerprint: fmt.Sprint(c.TCPMux, sig), Labels: labels}
 }
